@@ -38,6 +38,25 @@ inline json op_entries(const Operator& O, int M) {
     }
     return e;
 }
+// the vector overload getMatrixElement(bra, ket, states) with unit vectors over a basis list in a given order
+// (0 ascending, 1 descending, 2 grouped by particle number): entries are reported by Fock state, so the order must not matter
+inline json op_entries_vec(const Operator& O, int M, int order) {
+    unsigned long NS = 1ul << M;
+    std::vector<unsigned long> idx(NS);
+    for (unsigned long k = 0; k < NS; ++k) idx[k] = k;
+    if (order == 1) std::reverse(idx.begin(), idx.end());
+    if (order == 2) std::stable_sort(idx.begin(), idx.end(), [](unsigned long a, unsigned long b) { return __builtin_popcountl(a) > __builtin_popcountl(b); });
+    std::vector<FockState> states;
+    for (unsigned long k : idx) states.push_back(FockState(M, k));
+    json e = json::array();
+    for (unsigned long k = 0; k < NS; ++k) for (unsigned long b = 0; b < NS; ++b) {
+        VectorType bra = VectorType::Zero(NS), ket = VectorType::Zero(NS);
+        bra(b) = 1; ket(k) = 1;
+        MelemType v = O.getMatrixElement(bra, ket, states);
+        if (v != MelemType(0)) e.push_back(json::array({(long)idx[b], (long)idx[k], exact_num(mre(v), 1), exact_num(mim(v), 1)}));
+    }
+    return e;
+}
 inline json op_monomials(const Operator& O) {
     json out = json::array();
     for (auto it = O.begin(); it != O.end(); ++it) {
@@ -68,6 +87,7 @@ inline void run_algebra(const json& sc) {
         r["equal"] = (A == B);
         r["equal_self"] = (A == poly_from_json(sc["A"]));
         r["mulpoly"] = op_monomials(A * B);
+        r["vec0"] = op_entries_vec(A, M, 0); r["vec1"] = op_entries_vec(A, M, 1); r["vec2"] = op_entries_vec(A * B, M, 2);
         if (sc.count("C")) {
             Operator C = poly_from_json(sc["C"]);
             r["C"] = sc["C"];
